@@ -13,19 +13,21 @@ btable = run("benigntable.py")
 n = table.count("\n") - 2
 new = f'''## 13. Seeded breaking changes and which checks catch them
 
-{n} changes were produced in three rounds by fresh sub-agents that were given only the text of one property and a
+{n} changes were produced in five rounds by fresh sub-agents that were given only the text of one property and a
 scratch git worktree of `/repo` (nothing from `/verif`), with the brief: break the property while the library still
-compiles and its existing suite still passes, in a way that needs something specific to manifest (rounds 2 and 3
-were also told what the earlier changes had been, and to aim at cooperating sites, forgotten clauses, rarely used
-entry points, history-dependent values, error paths that report success and mid-range boundaries). Each is kept
+compiles and its existing suite still passes, in a way that needs something specific to manifest (from round 2 on
+they were also told what the earlier changes for that property had been, and to aim at cooperating sites, forgotten clauses,
+rarely used entry points, history-dependent values, error paths that report success, mid-range boundaries, reuse of
+long-lived objects, shared state behind independent objects, side effects on the caller's data). Each is kept
 as `seeded/<id>/` (`patch.diff`, `demo_test.go`, `meta.json`, `result.json`). `tools/seedrun.py` confirms the
 demonstration (passes on the unchanged tree, fails with the patch), confirms the existing suite still passes with
 the patch, applies the patch in a scratch worktree, runs `./check <property> quick` (then `thorough` if quick
 exits 0) and records the outcome; nothing is ever committed to `/repo`.
 
 The translator alone (regenerated `Gen` files differ from the unchanged tree's, or a fact is not found) sees 22 of
-the {n}: the changes to tables, dispatch arms, constants, lock order and helper functions; the other 78 keep every
-generated definition and are decided by the correspondence run and the property predicates.
+the {n}: the changes to tables, dispatch arms, constants, lock order and helper functions; all the others keep every
+generated definition and are decided by the correspondence run and the property predicates. First-contact detection
+(quick tier, concrete input, before any strengthening) was 31/40, 21/40, 21/40, 20/40 and 25/40 in rounds 1 to 5.
 
 What each round's first run missed, and what was strengthened (all {n} are caught by the quick tier now, with a
 concrete failing input except where the table below says otherwise; `result.json` holds the re-run):
@@ -77,10 +79,37 @@ concrete failing input except where the table below says otherwise; `result.json
 | `C15-r3b` | a cached transport deadline went stale after `WriteControl` armed its own | a transport that honours write deadlines; a control frame's deadline must not outlive it (retried, never reported, if the process stalls) |
 | `C18-r3a`, `C18-r3b` (no concrete input) | `Switch(w)` ignored when `w` was the previous writer (after `Close`); the rendered message used as a format again | writer histories (Switch/Close sequences, two writers); the whole line computed in the harness from the call alone (`%` in a rendered message is text) |
 
+**Round 4** (40 changes, 20 missed or caught without an input)
+
+| missed | why | strengthening |
+|---|---|---|
+| `C01-r4a`, `C05-r4a`, `C12-r4b` | a value cached in or shared between objects the CALLER keeps (`Message` reused across writes, booleans handed out as two shared singletons, NAL headers pointing into one table): editing one object changed another | messages reused across writes with other fields; constructors must hand out independent values; parsed values edited and parsed again |
+| `C01-r4b`, `C02-r4b`, `C03-r4b` | Set Chunk Size honoured only on chunk stream 2; one settings object for both directions; `Peek` of more than the bufio buffer | Set Chunk Size on any chunk stream; the reading endpoint announces its own chunk size; large packets behind chunk sizes above 4096 |
+| `C03-r4a`, `C04-r4a` (no input), `C04-r4b` | a cached container size after the packet was measured; bookkeeping on a copy (value receiver); the request table keyed by `uint32(tid)` | packets changed after being measured; fractional and wide transaction ids; the translator follows helper methods for the write-lock facts |
+| `C06-r4b`, `C08-r4a`, `C09-r4a` (no input), `C09-r4b`, `C10-r4a` | decoded strings viewing the input buffer; payloads / tags aliasing a reused read buffer; the muxer writing into the caller's slice | decoded values must not alias the input; messages and tags HELD until after a failing read; tags muxed from a caller buffer with spare capacity that must stay untouched |
+| `C07-r4a` (no input), `C11-r4a` (no input) | a split function that stalls at the end of input; a length compared after truncation to 16 bits | a harness watchdog (a library call that never returns is a `terminates` violation with the stuck goroutines); streams well over 64 KiB |
+| `C13-r4a`, `C13-r4b`, `C14-r4a`, `C14-r4b` | pooled flate readers handed to two sessions; an unclosed compressed writer; one `messageReader` reused for every message; huge legal frame lengths allocated up front | two compressed sessions read alternately; the implicit close of an unclosed writer; abandoned readers; huge frame lengths on cut streams |
+| `C15-r4a`, `C15-r4b` (thorough only) | a timed-out write not latched; `writeErr` read without its mutex | a stalled peer — nothing may follow a frame whose write timed out half-way; the race-enabled harness now also runs in the quick tier |
+| `C17-r4b`, `C18-r4a`, `C18-r4b`, `C20-r4a` | a pooled token buffer not reset between `Unmarshal` calls; colour escapes written to the previous writer; the info level skipped; `Average()` served from a one-second cache | sequential `Unmarshal` calls are independent; a writer that is not an `io.Closer` gets exactly one write per call; the info level follows `Switch` like the others (extracted table `switchLevels`); the public wall-clock `Average()` with measured bounds |
+
+**Round 5** (40 changes, 15 missed or caught without an input)
+
+| missed | why | strengthening |
+|---|---|---|
+| `C01-r5b` (and `C04-r5a`, caught) | the reader parsed message headers in a scratch array the writer also used: only a write that happens WHILE a read is in progress shows it | a re-entrant transport: at every split offset of the peer's stream the endpoint writes from inside the `Read` call that would deliver the rest (RTMP `Protocol`, websocket `Conn`); what is read is the peer's, what is written is a write-only endpoint's |
+| `C03-r5a` | the reader masked an announced chunk size to 31 bits, the writer did not | Set Chunk Size values with the top bit set followed by packets longer than the low bits |
+| `C04-r5b` | the transaction lock held across the transport write: the harness's own watchdog fired, and `check` then crashed on a result without samples | `check` no longer crashes on a watchdog result; an internal error of `check` is itself reported as a violation; no second (race) pass after a property violation |
+| `C05-r5a`, `C05-r5b`, `C06-r5a` | a process-wide nesting counter leaked by refused payloads and shared by concurrent decoders; a packet decoder advancing by the `Size()` of stale arguments when the packet value is REUSED; a marshalled property list cached and not invalidated by changes below | chains of up to 5000 nested containers; a canary value decoded again after batches of deep, cut-off and bad-marker values; decoders on 8 goroutines; every AMF0 value type and every RTMP packet kind decoded into long-lived values as well as fresh ones (this found **F29–F31** in the unchanged library, section 9); C06 compares with the specification after every change to a live value |
+| `C07-r5a` | a continuation chunk with a type-1 header announcing a SMALLER length made `make([]byte, negative)` panic | chunk streams written at the chunk level with one protocol rule broken in the middle of a message |
+| `C12-r5a`, `C12-r5b` (no input) | marshalled samples from a `sync.Pool`; `NewAVCSample(2)` silently turned into 4-byte lengths | retained encoder outputs as a shared facility (AVC, RTMP packets); the ISO sample layout and the reading of an independently written sample as property clauses for every length size |
+| `C13-r5a`, `C14-r5b` | the handshake timeout's read deadline left armed on the session; the Close 1002 sent under the application's stale write deadline | fake transports remember deadlines: none may be armed when `Dial` / `Upgrade` return; the reader's replies go out whatever write deadline the application had set |
+| `C15-r5a` (no input), `C15-r5b` | `isWriting` left set by a failed flush (later writes panic); a Close frame sent as a prepared message did not latch | library panics on driver goroutines are outcomes (and `check` reports a panic that stops the harness as `no_panic` with its stack); the Close frame sent by the writing goroutine in every way the API offers, pingers running throughout |
+| `C18-r5a` (thorough only), `C18-r5b` | the pid cached lazily without synchronisation; the context key turned into a plain string | the first lines of the process come from 16 goroutines at once, under the race detector in both tiers; application values under plain-string keys of any spelling are not the connection id |
+
 {table}
 ### 13b. Behaviour-preserving changes: what the checks say when the properties still hold
 
-21 refactors (three per package group: readability, performance, structure; 15–250 changed lines each) were
+42 refactors in two batches (three per package group and batch: readability, performance, structure; 15–250 changed lines each) were
 written by sub-agents told to keep every observable behaviour identical, including error cases and aliasing;
 each agent cross-checked its own change with a throw-away differential fuzz against the original. They are kept
 as `benign/<id>/patch.diff`; `tools/benignrun.py` applies each in a scratch worktree, confirms the baseline suite,
@@ -89,7 +118,12 @@ and runs the quick check of every property anchored in the touched packages.
 First run (machinery as of round 3): 12 of 21 raised no alarm; 9 raised `no-failing-input-found` for at least one
 property (translator facts keyed on spelling, section 10); none raised a correspondence mismatch that was a real
 behaviour difference — and the escalation triggered by five of them found the genuine defect F27. After the
-translator changes of section 3a the result is:
+translator changes of section 3a, 20 of those 21 and 39 of all 42 raised no alarm; the remaining three
+(`misc-b`, `misc-2b`, `misc-2c`) were translator facts that still read the spelling of the source. They are now:
+the JSONP format literal is optional (the wrapped bytes are decided by the correspondence run), the level table of
+`Switch` follows the package's own helper functions with their parameters, and logger prefix templates that are not
+format literals fall back to the model's own templates, said so in the generated file (the correspondence run compares
+every line byte for byte). With the machinery of this commit:
 
 {btable}
 '''
